@@ -117,15 +117,19 @@ Section Model.
     b_st : BS;
     b_active : bool; b_rc : Z;               (* f_cvb_active: enabled, ref_count *)
     b_awake : bool;                          (* f_cvb_awake: enabled *)
-    b_energy : T; b_forces : list T          (* bias_energy, colvar_forces *)
+    b_energy : T; b_forces : list T;         (* bias_energy, colvar_forces *)
+    b_scale : list T -> T;                   (* scaledBiasingForce: factor read from the scaling grid at the bin of the current
+                                                values of its variables (1 outside the grid; constantly 1 without the option) *)
+    b_fac : T                                (* biasing_force_factor of the last update (communicate_forces reads the grid at the
+                                                same values, in the same calc()) *)
   }.
 
   Definition set_bact (b : bias) (a : bool) (rc : Z) : bias :=
-    mkBias (b_id b) (b_tsf b) (b_vars b) (b_bypass b) (b_apply b) (b_upd b) (b_st b) a rc (b_awake b) (b_energy b) (b_forces b).
+    mkBias (b_id b) (b_tsf b) (b_vars b) (b_bypass b) (b_apply b) (b_upd b) (b_st b) a rc (b_awake b) (b_energy b) (b_forces b) (b_scale b) (b_fac b).
   Definition set_bawake (b : bias) (w : bool) : bias :=
-    mkBias (b_id b) (b_tsf b) (b_vars b) (b_bypass b) (b_apply b) (b_upd b) (b_st b) (b_active b) (b_rc b) w (b_energy b) (b_forces b).
-  Definition set_bout (b : bias) (s : BS) (e : T) (fs : list T) : bias :=
-    mkBias (b_id b) (b_tsf b) (b_vars b) (b_bypass b) (b_apply b) (b_upd b) s (b_active b) (b_rc b) (b_awake b) e fs.
+    mkBias (b_id b) (b_tsf b) (b_vars b) (b_bypass b) (b_apply b) (b_upd b) (b_st b) (b_active b) (b_rc b) w (b_energy b) (b_forces b) (b_scale b) (b_fac b).
+  Definition set_bout (b : bias) (s : BS) (e : T) (fs : list T) (fac : T) : bias :=
+    mkBias (b_id b) (b_tsf b) (b_vars b) (b_bypass b) (b_apply b) (b_upd b) s (b_active b) (b_rc b) (b_awake b) e fs (b_scale b) fac.
 
   (* restore_children_deps: for every enabled feature, in feature order (active, then apply_force) *)
   Definition bias_restore (b : bias) (vs : list var) : list var :=
@@ -218,7 +222,8 @@ Section Model.
 
   Definition bias_update (it : Z) (vs : list var) (b : bias) : bias :=
     if b_active b then
-      let '(s', (e, fs)) := b_upd b (b_st b) it (values_of vs (b_vars b)) in set_bout b s' e fs
+      let '(s', (e, fs)) := b_upd b (b_st b) it (values_of vs (b_vars b)) in
+      set_bout b s' e fs (b_scale b (values_of vs (b_vars b)))
     else b.
 
   (* [efix] = true is the code after the fix "the energy of a bias that applies no force was added to
@@ -234,21 +239,21 @@ Section Model.
   (* colvarbias::communicate_forces: variables(i)->add_bias_force(real(tsf) * colvar_forces[i]);
      add_bias_force checks f_cv_apply_force (an error if it is off, the force is added anyway);
      with bypassExtendedLagrangian the force goes to fb_actual, unchecked.
-     (scaledBiasingForce is not modelled: biasing_force_factor = 1) *)
-  Fixpoint add_forces (bypass : bool) (tsf : T) (ids : list nat) (fs : list T) (vs : list var) : list var * bool :=
+     the whole force is multiplied by biasing_force_factor (scaledBiasingForce; 1 otherwise) *)
+  Fixpoint add_forces (bypass : bool) (tsf fac : T) (ids : list nat) (fs : list T) (vs : list var) : list var * bool :=
     match ids, fs with
     | i :: ids', f :: fs' =>
-      let ff := nmul O tsf f in
+      let ff := nmul O (nmul O tsf f) fac in
       let e := match nth_error vs i with Some v => negb bypass && negb (v_apply v) | None => false end in
       let vs1 := upd_nth vs i (fun v => if bypass then set_vfb v (v_fb v) (nadd O (v_fba v) ff)
                                         else set_vfb v (nadd O (v_fb v) ff) (v_fba v)) in
-      let '(vs2, e2) := add_forces bypass tsf ids' fs' vs1 in
+      let '(vs2, e2) := add_forces bypass tsf fac ids' fs' vs1 in
       (vs2, e || e2)
     | _, _ => (vs, false)
     end.
 
   Definition communicate_bias (b : bias) (vs : list var) : list var * bool :=
-    if b_active b && b_apply b then add_forces (b_bypass b) (nofZ O (b_tsf b)) (b_vars b) (b_forces b) vs
+    if b_active b && b_apply b then add_forces (b_bypass b) (nofZ O (b_tsf b)) (b_fac b) (b_vars b) (b_forces b) vs
     else (vs, false).
 
   Fixpoint communicate_biases (bs : list bias) (vs : list var) : list var * bool :=
@@ -345,11 +350,11 @@ Section Model.
 
   Record bias_cfg := mkBcfg {
     bc_id : nat; bc_tsf : Z; bc_vars : list nat; bc_bypass : bool; bc_apply : bool;
-    bc_upd : BS -> Z -> list T -> BS * (T * list T); bc_st0 : BS }.
+    bc_upd : BS -> Z -> list T -> BS * (T * list T); bc_st0 : BS; bc_scale : list T -> T }.
 
   Definition init_bias (c : bias_cfg) : bias :=
     mkBias (bc_id c) (bc_tsf c) (bc_vars c) (bc_bypass c) (bc_apply c) (bc_upd c) (bc_st0 c)
-           true 0 false (n0 O) (map (fun _ => n0 O) (bc_vars c)).
+           true 0 false (n0 O) (map (fun _ => n0 O) (bc_vars c)) (bc_scale c) (n1 O).
 
   Definition init_refs (vs : list var) (b : bias) : list var := bias_restore b vs.
 
@@ -444,14 +449,24 @@ Section Kinds.
   Definition kind_bypass (kd : kind) : bool :=
     match kd with KWallUp _ _ => true | _ => false end.
 
-  Definition kind_cfg (id : nat) (tsf : Z) (vars : list nat) (kd : kind) : @bias_cfg T kst :=
-    mkBcfg id tsf vars (kind_bypass kd) (kind_applies kd) (kind_upd kd) kst0.
+  (* scaledBiasingForceFactorsGrid on the first variable of the bias: (lower boundary, width, values); colvar_grid::
+     current_bin_scalar = floor((x - lower) / width); factor = value of the bin, 1 outside the grid *)
+  Definition scale_of (g : option (T * T * list T)) (xs : list T) : T :=
+    match g, xs with
+    | Some (lo, w, vals), x :: _ =>
+      let b := nfloor O (ndiv O (nsub O x lo) w) in
+      if (0 <=? b) && (b <? Z.of_nat (length vals)) then nth (Z.to_nat b) vals (n1 O) else n1 O
+    | _, _ => n1 O
+    end.
+
+  Definition kind_cfg (id : nat) (tsf : Z) (vars : list nat) (kd : kind) (g : option (T * T * list T)) : @bias_cfg T kst :=
+    mkBcfg id tsf vars (kind_bypass kd) (kind_applies kd) (kind_upd kd) kst0 (scale_of g).
 
   (* driver entry point *)
   Definition run_kinds (fixed efix : bool) (it0 : Z) (tsfs : list Z)
-             (bs : list (nat * Z * list nat * kind)) (evs : list (@event T)) : list (@out T kst) :=
+             (bs : list (nat * Z * list nat * kind * option (T * T * list T))) (evs : list (@event T)) : list (@out T kst) :=
     run_cfg O fixed efix it0 tsfs
-            (map (fun q => let '(id, tsf, vars, kd) := q in kind_cfg id tsf vars kd) bs) evs.
+            (map (fun q => let '(id, tsf, vars, kd, g) := q in kind_cfg id tsf vars kd g) bs) evs.
 End Kinds.
 
 (* ---- total-force coupling (documented: subtractAppliedForce) ----------------------------------------
